@@ -211,4 +211,21 @@ def nextChange (ctx : Ctx) (e : Expr) (t : Instant) : M (Option Instant) :=
   | .ok none => .ok none
   | .ok (some iv) => if iv.stop ≥ instEnd then .ok none else .ok (some iv.stop)
 
+/-! ### the same two entry points over an abstract day level (`state ctx e t = stateG (envOf ctx e) t` by `rfl`) -/
+
+/-- `OpeningHours::state` over an abstract `Env` (`state ctx e t = stateG (envOf ctx e) t` by `rfl`) -/
+def stateG (env : Env) (t : Instant) : M Kind :=
+  if t ≥ instEnd then .ok .closed
+  else match firstIntervalG env t (t + nsPerMin) with
+    | .error p => .error p
+    | .ok none => .ok .closed
+    | .ok (some iv) => .ok iv.kind
+
+/-- `OpeningHours::next_change` over an abstract `Env` -/
+def nextChangeG (env : Env) (t : Instant) : M (Option Instant) :=
+  match firstIntervalG env t instEnd with
+  | .error p => .error p
+  | .ok none => .ok none
+  | .ok (some iv) => if iv.stop ≥ instEnd then .ok none else .ok (some iv.stop)
+
 end OH.Model
